@@ -15,6 +15,7 @@
 (*   Md6S0, Md6Smask       S'_0 and Smask (the report's S star);              *)
 (*   Md6SNext(S)           (S <<< 1) xor (S and Smask)                         *)
 (*   Md6S(j)               round constant of round j >= 0                     *)
+(*   Md6STable(r)          <<S_0, ..., S_{r-1}>>                              *)
 (*   Md6F(r, N)            N = tuple of 89 words -> tuple of the LAST 16      *)
 (*                         words of A after t = 16 r steps  (r >= 1)          *)
 (*   Md6ControlWord(r, L, z, p, keylen, d)   the word V (r, L, z, p, keylen,  *)
@@ -98,15 +99,26 @@ Md6StepWord(A, S, s) ==
 \* one round = 16 steps with the same S, appended to A
 RECURSIVE Md6Round(_,_,_)
 Md6Round(A, S, s) == IF s = 16 THEN A ELSE Md6Round(Append(A, Md6StepWord(A, S, s)), S, s + 1)
-\* A grows from the n input words to n + 16 r words.  The recursion is per round, not per
-\* step: the Java stack depth (and with it the cost of every garbage collection) stays small.
-\* Len(A) is tested first on purpose: it makes TLC evaluate the previous round now instead of
-\* building a chain of r suspended rounds.
-RECURSIVE Md6Rounds(_,_,_)
-Md6Rounds(A, S, r) ==
-  IF Len(A) = Md6N + (16 * r) THEN A ELSE Md6Rounds(Md6Round(A, S, 0), Md6SNext(S), r)
 
-Md6F(r, N) == LET A == Md6Rounds(N, Md6S0, r)
+\* <<S_0, ..., S_{r-1}>>
+RECURSIVE Md6STableR(_,_,_)
+Md6STableR(S, r, acc) == IF r = 0 THEN acc ELSE Md6STableR(Md6SNext(S), r - 1, Append(acc, S))
+Md6STable(r) == Md6STableR(Md6S0, r, <<>>)
+
+\* A grows from the n input words to n + 16 r words; ST = Md6STable(r); j = rounds done.
+\* The loop over the rounds is written as a recursion over spans of 8 rounds, each span a
+\* recursion over its rounds, each round a recursion over its 16 steps, instead of ONE recursion
+\* of depth 16 r: TLC extends the caller's context at every operator application, so inside a
+\* recursion of depth D every identifier lookup walks a list of ~D x (#parameters) entries
+\* (measured: 16 r = 2560 deep -> 44 s per compression; nested as below -> 0.2 s).
+RECURSIVE Md6Span(_,_,_,_)
+Md6Span(A, ST, j, k) ==
+  IF k = 0 \/ j = Len(ST) THEN A ELSE Md6Span(Md6Round(A, ST[j+1], 0), ST, j + 1, k - 1)
+RECURSIVE Md6Rounds(_,_)
+Md6Rounds(A, ST) ==
+  LET j == (Len(A) - Md6N) \div 16 IN IF j = Len(ST) THEN A ELSE Md6Rounds(Md6Span(A, ST, j, 8), ST)
+
+Md6F(r, N) == LET A == Md6Rounds(N, Md6STable(r))
               IN SubSeq(A, Len(A) - Md6C + 1, Len(A))
 
 \* ---- auxiliary inputs --------------------------------------------------------
